@@ -1,4 +1,6 @@
+pub mod caps;
 pub mod cpio;
 pub mod digests;
 pub mod fmt;
 pub mod tags;
+pub mod vercmp;
